@@ -374,12 +374,12 @@ func (ex *Exec) choose(conds []*Term) int {
 		}
 		return idx
 	}
-	if ex.specDepth > 0 {
-		panic(specAbort{})
-	}
 	if ex.initLenient > 0 {
 		// package initialisers never fork a path: what depends on unknown data stays opaque
 		panic(unsupported("branch on unknown data inside a package initialiser"))
+	}
+	if ex.specDepth > 0 {
+		panic(specAbort{})
 	}
 	ex.Branches++
 	if ex.dpos < len(ex.decisions) {
@@ -426,11 +426,11 @@ func (ex *Exec) chooseN(n int) int {
 	if n == 1 {
 		return 0
 	}
-	if ex.specDepth > 0 {
-		panic(specAbort{})
-	}
 	if ex.initLenient > 0 {
 		panic(unsupported("choice inside a package initialiser"))
+	}
+	if ex.specDepth > 0 {
+		panic(specAbort{})
 	}
 	ex.Branches++
 	if ex.dpos < len(ex.decisions) {
@@ -1163,6 +1163,12 @@ func (ex *Exec) ensureInit(pkg *ssa.Package) {
 	if ex.initDone[pkg] {
 		return
 	}
+	// Package initialisation happens before main in Go, independently of the path: when it is first
+	// needed inside a speculatively executed branch arm it runs outside the speculation (its effects
+	// stay whether or not the arm is kept) and, like every initialiser, without forking.
+	savedSpec := ex.specDepth
+	ex.specDepth = 0
+	defer func() { ex.specDepth = savedSpec }()
 	ex.initDone[pkg] = true
 	if h, ok := pkgInitStubs[pkg.Pkg.Path()]; ok {
 		h(ex, pkg)
@@ -1176,9 +1182,11 @@ func (ex *Exec) ensureInit(pkg *ssa.Package) {
 	saved, savedInit := ex.curFrame, ex.curInitFn
 	ex.curInitFn = initFn
 	ex.initLenient++
+	defer func() {
+		ex.initLenient--
+		ex.curFrame, ex.curInitFn = saved, savedInit
+	}()
 	ex.runInitLenient(initFn)
-	ex.initLenient--
-	ex.curFrame, ex.curInitFn = saved, savedInit
 }
 
 // runInitLenient executes a package initialiser, statement by statement; calls to other packages'
